@@ -443,6 +443,26 @@ func c17Flags(c *Ctx) {
 			c.Ok(c.fn(fn), c.P.FuncPos(fn), sp.doc)
 		}
 	}
+	for _, sp := range []struct{ m, field string }{{"ElapsedTime", "startTime"}, {"ElapsedAttemptTime", "attemptStartTime"}} {
+		fn := c.P.Func("failsafe.(*execution)." + sp.m)
+		if fn == nil {
+			c.Unresolved("failsafe.(*execution)."+sp.m, "not found")
+			continue
+		}
+		ev := NewEvaluator(c.P, EvalConfig{})
+		ok := true
+		ps := ev.Run(fn)
+		for _, p := range ps {
+			sn := eventsWhere(p, func(x *Event) bool { return isCall(x, "Since") })
+			if p.Exit != ExitReturn || len(sn) != 1 || loadedField(sn[0].Args[0]) != sp.field || p.Rets[0] != sn[0].Res[0] {
+				ok = false
+				c.Fail(c.fn(fn), c.P.FuncPos(fn), sp.m+"() must be time.Since("+sp.field+")", pathTrace(ev, p))
+			}
+		}
+		if ok && len(ps) > 0 {
+			c.Ok(c.fn(fn), c.P.FuncPos(fn), "time.Since("+sp.field+")")
+		}
+	}
 	for _, sp := range []struct {
 		m, op string
 	}{{"IsFirstAttempt", "=="}, {"IsRetry", ">"}} {
